@@ -424,6 +424,9 @@ func (p *Printer) ifOneLineOK(e *Expr) bool {
 	if e.Then.Final.K == "if" || (e.Else != nil && e.Else.Final.K == "if") {
 		return false
 	}
+	if e.OneLine {
+		return true
+	}
 	return p.L.IfOneLine()
 }
 
